@@ -646,7 +646,7 @@ def oracle_duplicate(case):
 
 
 def gen_duplicate_case(rng):
-    names = [g for g in REGULAR + ["N2", "RND2", "SMALL2"] if base_sig(g).count("q") >= 2]
+    names = [g for g in REGULAR + ["N2"] if base_sig(g).count("q") >= 2]  # well-formed gates only: the control must run
     g = rng.choice(names)
     sig = base_sig(g)
     m = sig.count("q")
@@ -671,9 +671,7 @@ def gen_duplicate_case(rng):
         if mode in ("alias", "macro_alias"):
             out[i] = f"a[{qs[i] - lo}]"          # one of the two clashing positions goes through the alias
         elif mode == "single_alias":
-            out[j] = "s" if qs[j] == bad[j] else out[j]
-            if qs is bad:
-                out[i] = f"a[{qs[i] - lo}]" if rng.random() < 0.5 else out[i]
+            out[j] = "s"                           # s = r[bad[j]] = r[good[j]]; position i names the same qubit directly
         return out
 
     def stmt(qs):
@@ -908,8 +906,11 @@ def replay(case: dict, driver: str = DEFAULT_DRIVER) -> dict:
         return {"model": None, "impl": impl, "oracle_ok": ok, "detail": detail}
     model = model_view(case, call_driver(driver, model_reqs(case)))
     if kind == "apply":
-        vs = run_emulator_raw(case["text"]) if case.get("raw") else [v for v, _ in run_pipeline(case["text"])]
-        impl = vec_json(vs[1])
+        try:
+            vs = run_emulator_raw(case["text"]) if case.get("raw") else [v for v, _ in run_pipeline(case["text"])]
+            impl = vs if isinstance(vs, str) else vec_json(vs[1])
+        except Exception as e:
+            impl = f"unexpected {type(e).__name__}: {e}"
         return {"model": model, "impl": impl, "oracle_ok": None, "detail": "" if model == impl else "model and impl differ"}
     try:
         impl = impl_run(case)
